@@ -509,7 +509,13 @@ func C05(tier string) int {
 		classes := map[string]struct{}{}
 		outc := map[string]int{}
 		for _, in := range ins[lo:hi] {
-			sc := &Scenario{Name: in.name, Kind: in.kind, Entry: in.entry, URL: outbox(Alice), Body: in.body, Tweak: world}
+			tw := world
+			if in.nObj >= 5 {
+				// many objects: the library may spread the work over goroutines; the application model then
+				// runs in its synchronised form (every seam call under a mutex), as it does for the race passes
+				tw = func(a *ap.App) { world(a); a.Sync = true }
+			}
+			sc := &Scenario{Name: in.name, Kind: in.kind, Entry: in.entry, URL: outbox(Alice), Body: in.body, Tweak: tw}
 			a := sc.World()
 			if (lo+len(classes)+len(outc))%6 == 0 || strings.Contains(in.name, "spelling=") {
 				// the same Actor has just REFUSED a Create that carried recipients of its own (its object is a
@@ -668,9 +674,12 @@ func C05(tier string) int {
 	var faultIns []c05input
 	multi := map[int]int{}
 	for i, in := range ins {
+		if in.nObj >= 5 {
+			continue // the many-object Creates run fault-free in the synchronised model (part 1)
+		}
 		if i%97 == 0 || !(in.bare || in.nObj > 0) {
 			faultIns = append(faultIns, in)
-		} else if in.nObj >= 2 && multi[in.nObj] < 3 {
+		} else if in.nObj >= 2 && in.nObj < 5 && multi[in.nObj] < 3 {
 			multi[in.nObj]++ // always some Creates with several objects (a fault on a non-last object)
 			faultIns = append(faultIns, in)
 		}
